@@ -10,6 +10,8 @@ def compare(case, verdict):
     impl = case.get("impl")
     if isinstance(impl, dict) and "panic" in impl:
         return {"agree": False, "holds": False, "detail": "implementation panicked: " + str(impl["panic"])[:300]}
+    if "skipped" in verdict.get("info", {}):
+        return {"skipped": True}
     model = verdict.get("model") or {}
     agree = True
     detail = ""
@@ -30,6 +32,8 @@ def compare(case, verdict):
 
 
 def nontrivial(case, v):
+    if case.get("k") == "history":
+        return v.get("info", {}).get("history_steps", 0) >= 10
     snaps = (case.get("impl") or {}).get("snaps", [])
     return len(snaps) >= 3 and any(len(r["acts"]) >= 2 for s in snaps for r in s["routes"])
 
@@ -37,7 +41,12 @@ def nontrivial(case, v):
 def extra(cases, verdicts):
     snaps = sum(len((c.get("impl") or {}).get("snaps", [])) for c in cases)
     routes = sum(len(s["routes"]) for c in cases for s in (c.get("impl") or {}).get("snaps", []))
-    return {"snapshots": snaps, "route_states_compared_with_lean_recompute": routes,
+    hist = [c for c in cases if c.get("k") == "history"]
+    hsteps = sum(verdicts.get(c["id"], {}).get("info", {}).get("history_steps", 0) for c in hist)
+    hpairs = sum(verdicts.get(c["id"], {}).get("info", {}).get("cache_pairs", 0) for c in hist)
+    hobj = sum(1 for c in hist if c.get("sp", {}).get("objectives"))
+    return {"operator_histories": len(hist), "operator_steps": hsteps, "operator_cache_pairs_compared": hpairs,
+            "operator_histories_with_aggregate_objectives": hobj, "snapshots": snaps, "route_states_compared_with_lean_recompute": routes,
             "insertions_observed": snaps - len(cases)}
 
 
@@ -47,13 +56,17 @@ PROP = dict(
     rule="construction histories: 1-5 vehicles with feasible tours (metric and non-metric matrices, 1-2 capacity dimensions, distance or cost "
          "objective), 1-6 candidate jobs inserted by the real InsertionHeuristic; a wrapping InsertionEvaluator snapshots the context right "
          "after every applied insertion and at hand-over: bare tours, schedules, the H1 digest of every cached route/solution value, and the "
-         "same after stripping the caches and recomputing. Non-trivial: >= 2 insertions observed and a tour with >= 2 activities. "
+         "same after stripping the caches and recomputing. Operator histories (60 quick / 600 thorough, generator and execution shared "
+         "with the C04 harness: every shipped search operator, pragen problems, those under explicit work-balance / compact-tour / soft "
+         "tour-order objectives first): after every step every cached value per route (with its schedule), per solution, and the fitness "
+         "is compared with strip-and-recompute, and no route may be handed over stale. "
+         "Non-trivial: >= 2 insertions observed and a tour with >= 2 activities; a history with >= 10 steps. "
          "Distinct = SHA-256 of the canonical case input",
     modelled="update_route_schedule (update_schedules, update_states: latest arrival + future waiting, update_statistics), capacity "
              "recalculate_states (current/max-past/max-future), accept_insertion / accept_route_state / accept_solution_state stale protocol "
              "(abstractly), fitness as a function of caches",
     traced="cached values of every other feature (and the max-load ratio) are compared implementation-vs-implementation (strip + recompute); "
-           "operator histories are covered by the C04 check",
+           "on operator histories all cached values are compared implementation-vs-implementation",
     out_of_model="recharge and shared-resource states, f64 rounding (integer data)",
     assumptions=["hook H1 renders cached values by downcasting to their plain stored types; values of unknown types render as <opaque>"],
 )
